@@ -877,9 +877,101 @@ func c17DomainPatternOrders(c *Ctx) {
 }
 
 func runC17(c *Ctx) {
-	c.Rule = "metamorphic relations on the real enforcer for 31 shipped examples/ model+policy pairs (regex/glob/ip/keyMatch mixtures, pattern role managers, eval, ABAC; set up as their tests do) x seeded random transformations (reload from a file listing the same rules in another order, the same rules added in another order through the API, move a rule to the end, add a listed rule, add and remove a fresh rule or link, remove and re-add a listed rule or link, remove all role links of a subject and add them back) x requests drawn from the values occurring in the policy: every error-free decision must be unchanged (non-priority effects), no allowed request denied after an addition / no denied request granted after a removal (allow-override, matcher without negation), no grant after an addition under deny-override; a domain-pattern model whose user has several roles in a pattern domain, the same 7 rules loaded / added in seeded random orders; plus generated models with random positive matchers (and a negated role test for contrast) over g, keyMatch, comparisons: every call and decision compared with the Lean model, the same relations checked along random add/remove runs; non-trivial = a transformation that permuted rules or changed some decision; distinct = (pair, transformation)"
+	c.Rule = "metamorphic relations on the real enforcer for 31 shipped examples/ model+policy pairs (regex/glob/ip/keyMatch mixtures, pattern role managers, eval, ABAC; set up as their tests do) x seeded random transformations (reload from a file listing the same rules in another order, the same rules added in another order through the API, move a rule to the end, add a listed rule, add and remove a fresh rule or link, remove and re-add a listed rule or link, remove all role links of a subject and add them back) x requests drawn from the values occurring in the policy: every error-free decision must be unchanged (non-priority effects), no allowed request denied after an addition / no denied request granted after a removal (allow-override, matcher without negation), no grant after an addition under deny-override; a domain-pattern model whose user has several roles in a pattern domain, the same 7 rules loaded / added in seeded random orders; a pattern role manager whose names cover each other (/book/*, /book/:id, /:any/*; each linked to its own group): every order of two or three of the links, added or loaded, must give the same decisions (pattern texts as requests included) and the third link must take nothing away; plus generated models with random positive matchers (and a negated role test for contrast) over g, keyMatch, comparisons: every call and decision compared with the Lean model, the same relations checked along random add/remove runs; non-trivial = a transformation that permuted rules or changed some decision; distinct = (pair, transformation)"
 	c17Examples(c)
 	c17DomainPatternOrders(c)
+	c17MutualPatterns(c)
 	c17ConcatNames(c)
 	c17Generated(c)
+}
+
+// c17MutualPatterns: a pattern role manager whose names cover each other ("/book/*" matches the text
+// "/book/:id" under KeyMatch2 and the other way round; "/:any/*" covers both), each linked to a group of its
+// own: the decisions — also for requests naming a pattern text itself — must not depend on the order in which
+// the links arrive (through the API or from a file), and adding a link must not take a permission away.
+func c17MutualPatterns(c *Ctx) {
+	mpath := "/repo/examples/rbac_with_pattern_model.conf"
+	pol := [][]string{{"alice", "star_group", "GET"}, {"bob", "id_group", "GET"}, {"carol", "any_group", "GET"}}
+	links := [][]string{{"/book/*", "star_group"}, {"/book/:id", "id_group"}, {"/:any/*", "any_group"}}
+	objs := []string{"/book/*", "/book/:id", "/:any/*", "/book/1", "/pen/1", "star_group", "id_group", "any_group"}
+	subs := []string{"alice", "bob", "carol"}
+	dec := func(e *casbin.Enforcer) string {
+		var sb strings.Builder
+		for _, s := range subs {
+			for _, o := range objs {
+				ok, err := e.Enforce(s, o, "GET")
+				switch {
+				case err != nil:
+					sb.WriteByte('E')
+				case ok:
+					sb.WriteByte('1')
+				default:
+					sb.WriteByte('0')
+				}
+			}
+		}
+		return sb.String()
+	}
+	build := func(order []int, viaFile bool) *casbin.Enforcer {
+		e, err := casbin.NewEnforcer(mpath)
+		if err != nil {
+			panic(err)
+		}
+		e.AddNamedMatchingFunc("g2", "KeyMatch2", util.KeyMatch2)
+		if viaFile {
+			var sb strings.Builder
+			for _, p := range pol {
+				sb.WriteString("p, " + strings.Join(p, ", ") + "\n")
+			}
+			for _, j := range order {
+				sb.WriteString("g2, " + strings.Join(links[j], ", ") + "\n")
+			}
+			path := scratchFile()
+			if err := os.WriteFile(path, []byte(sb.String()), 0o644); err != nil {
+				panic(err)
+			}
+			e.SetAdapter(fileadapter.NewAdapter(path))
+			if err := e.LoadPolicy(); err != nil {
+				panic(err)
+			}
+			return e
+		}
+		_, _ = e.AddPolicies(cloneRules(pol))
+		for _, j := range order {
+			_, _ = e.AddNamedGroupingPolicy("g2", append([]string(nil), links[j]...))
+		}
+		return e
+	}
+	orders := [][]int{{0, 1, 2}, {0, 2, 1}, {1, 0, 2}, {1, 2, 0}, {2, 0, 1}, {2, 1, 0}, {0, 1}, {1, 0}, {0, 2}, {2, 0}, {1, 2}, {2, 1}}
+	ref := map[string]string{}
+	for _, viaFile := range []bool{false, true} {
+		for _, order := range orders {
+			key := fmt.Sprint(len(order) == 3, order[0]+order[1]) // the set of links
+			if len(order) == 3 {
+				key = "all"
+			}
+			got := dec(build(order, viaFile))
+			c.Evals++
+			c.Count("mutual_pattern_orders", 1)
+			if want, seen := ref[key]; !seen {
+				ref[key] = got
+			} else if got != want {
+				c.Direct("decisions over a pattern role manager depend on the order in which the links arrive", fmt.Sprintf("links %v in order %v (from a file: %v)\ndecisions %s\nthe same links in another order gave %s\n(subjects %v x objects %v)", links, order, viaFile, got, want, subs, objs))
+			}
+		}
+	}
+	// monotone: every permission held with two of the links is still held with all three
+	for _, order := range orders {
+		if len(order) != 2 {
+			continue
+		}
+		two, all := ref[fmt.Sprint(false, order[0]+order[1])], ref["all"]
+		for i := range two {
+			if two[i] == '1' && all[i] != '1' {
+				c.Direct("adding a role link took a permission away (pattern role manager)", fmt.Sprintf("links %v: with %v decisions %s, with all three %s (subjects %v x objects %v)", links, order, two, all, subs, objs))
+				break
+			}
+		}
+	}
+	c.Nontrivial("mutual-patterns")
 }
